@@ -605,6 +605,20 @@ func (c *Cluster) healPhase() {
 
 func (c *Cluster) livenessCause(stage string) string {
 	// A structured cause: which kind of node is stuck.
+	if stage == "no-progress" {
+		// A voter left inconsistent by F2/F3 (see below) that is needed for the quorum blocks
+		// commitment altogether: the same consequence, seen one step earlier.
+		if l := c.uniqueLeader(); l != nil && l.Inc.haveStatus {
+			for _, n := range c.upNodes() {
+				if n != l && n.Inc.haveStatus && n.Inc.lastStatus.LastApplied < l.Inc.lastStatus.CommitIndex {
+					if t := c.Rec.tainted(n, stage, "F2", "F3"); t != stage {
+						return t
+					}
+				}
+			}
+		}
+		return stage
+	}
 	if stage != "not-converged" {
 		return stage
 	}
